@@ -484,7 +484,9 @@ fn op_issue(i: &Value) -> R<Value> {
 		pems.push_str(&String::from_utf8_lossy(&cert.to_pem().map_err(e)?));
 		let pubpem = signer.public_key_to_pem().map_err(e)?;
 		subject_pub = PKey::public_key_from_pem(&pubpem).map_err(e)?;
-		cur_dns = vec![];
+		// `pad`: make the upper certificates big (many names) so that the chain exceeds common buffer sizes
+		let pad = i["pad"].as_u64().unwrap_or(0);
+		cur_dns = (0..pad).map(|n| format!("padding-{level}-{n:04}.chain-size.verif.invalid")).collect();
 		cur_ips = vec![];
 	}
 	Ok(json!({"pem": pems}))
